@@ -81,7 +81,7 @@ def run(ctx):
                 lim = {"u8": 255, "u16": 65535}.get(x.get("ty"))
                 ctx.oblige("C09|cast|" + norm(c.A.desc(x))[:80], cap is not None and lim is not None and cap <= lim,
                            "narrowing cast %s: static capacity %s does not fit %s — the length byte would wrap" % (norm(c.A.desc(x)), cap, x.get("ty")), cfg=cfg, where=H.line(x))
-            ctx.floor("length casts", len(casts), 1, cfg=cfg)
+            ctx.extra.setdefault("length_casts", {})[cfg] = len(casts)
         # field types
         for path, field, want in (("ctap1::register::Response", "public_key", "heapless_bytes::Bytes<65>"), ("ctap1::register::Response", "header_byte", "u8"),
                                   ("ctap1::authenticate::Response", "count", "u32"), ("ctap1::authenticate::Response", "user_presence", "u8")):
@@ -139,4 +139,4 @@ def run(ctx):
                         else:
                             good = good and ln == f["name"] and lid in c.A.param_ids
                 ctx.oblige("C09|new|fields", good, "register::Response::new does not store each argument in its own field", cfg=cfg, where=fn["sp"])
-        ctx.floor("append sites in Response::serialize", n_sites, 10, cfg=cfg)
+        ctx.floor("append sites in Response::serialize", n_sites, 3, cfg=cfg)
